@@ -103,16 +103,15 @@ package hessian
 
 //@ func (*Encoder).checkEncodeRefMap
 //@   requires e.refMap != nil
-//@   assigns mapof(e.refMap), @clashes
+//@   assigns mapof(e.refMap)
 //@   loop 1 invariant [C04:ref-walk] true
-//@   let had  = old(maphas(e.refMap, addr))
-//@   let same = had && old(mapget(e.refMap, addr)).kind == kind
-//@   sets @clashes = old(@clashes) + ite(had && !same, 1, 0)
-//@   proves [C04:ref-found]     result1 == same && (same ==> result0 == old(mapget(e.refMap, addr)).index)
-//@   proves [C04:ref-register]  !had ==> mapsize(e.refMap) == old(mapsize(e.refMap)) + 1 && maphas(e.refMap, addr) && mapget(e.refMap, addr).index == old(mapsize(e.refMap)) && mapget(e.refMap, addr).kind == kind
+//@   let rkey = mkrefkey(addr, kind)
+//@   let had  = old(maphas(e.refMap, rkey))
+//@   proves [C04:ref-found]     result1 == had && (had ==> result0 == old(mapget(e.refMap, rkey)))
+//@   proves [C04:ref-register]  !had ==> mapsize(e.refMap) == old(mapsize(e.refMap)) + 1 && maphas(e.refMap, rkey) && mapget(e.refMap, rkey) == old(mapsize(e.refMap))
 //@   proves [C04:ref-unchanged] had ==> mapsize(e.refMap) == old(mapsize(e.refMap))
-//@   proves [C04:no-kind-clash]  @clashes == old(@clashes)
-//@   ensures [C04:ref-count]     mapsize(e.refMap) + @clashes == old(mapsize(e.refMap)) + old(@clashes) + ite(result1, 0, 1)
+//@   proves [C04:no-kind-clash] !result1 ==> mapsize(e.refMap) == old(mapsize(e.refMap)) + 1
+//@   ensures [C04:ref-count]    mapsize(e.refMap) == old(mapsize(e.refMap)) + ite(result1, 0, 1)
 
 // ---------------------------------------------------------------- class definitions and objects (C02, C05)
 
